@@ -111,6 +111,11 @@ func NewReport(property string) *Report {
 	if os.Getenv("GOGC") == "" {
 		debug.SetGCPercent(800)
 	}
+	if os.Getenv("GOMEMLIMIT") == "" {
+		// GOGC=800 lets the heap grow to nine times the live data; the soft limit makes the collector work harder
+		// long before a harness with a few GiB of live data (exact de-duplication sets) fills the machine.
+		debug.SetMemoryLimit(12 << 30)
+	}
 	return &Report{
 		Property: property, Tier: tier, Seed: seed, Level: "model_checking",
 		start: time.Now(), classes: map[string]*classRec{}, counters: map[string]int64{},
